@@ -3,8 +3,15 @@
 package main
 
 import (
+	"bytes"
+	"encoding/json"
 	"fmt"
+	"hash/fnv"
+	"io"
 	"os"
+	"os/exec"
+	"path/filepath"
+	"strings"
 
 	"verif/internal/mon"
 )
@@ -25,7 +32,76 @@ func main() {
 		fmt.Fprintln(os.Stderr, "unknown property", os.Args[1])
 		os.Exit(2)
 	}
+	if os.Getenv("VERIF_SUPERVISED") == "" {
+		os.Exit(supervise(os.Args[1]))
+	}
 	m := mon.New(os.Args[1])
 	f(m)
 	os.Exit(m.Finish())
+}
+
+// supervise runs the monitor in a child process. The monitors call library code in-process; if that code
+// brings the whole process down (stack overflow from unbounded recursion, "concurrent map writes", out of
+// memory) no monitor survives to report it, so the parent turns an abnormal death into a violation with
+// the head of the child's stderr as witness. Normal exits (0 held, 1 violated, 3 inconclusive, 2 with a
+// BROKEN-CHECK/usage line) are passed through unchanged.
+func supervise(prop string) int {
+	self, _ := os.Executable()
+	cmd := exec.Command(self, os.Args[1:]...)
+	cmd.Env = append(os.Environ(), "VERIF_SUPERVISED=1")
+	var errb bytes.Buffer
+	cmd.Stdout = os.Stdout
+	cmd.Stderr = io.MultiWriter(os.Stderr, &limited{b: &errb, max: 1 << 20})
+	err := cmd.Run()
+	if err == nil {
+		return 0
+	}
+	ee, ok := err.(*exec.ExitError)
+	if !ok {
+		fmt.Fprintln(os.Stderr, "cannot run the monitor:", err)
+		return 2
+	}
+	code := ee.ExitCode()
+	out := errb.String()
+	fatal := ""
+	for _, ln := range strings.Split(out, "\n") {
+		if strings.HasPrefix(ln, "fatal error:") || strings.HasPrefix(ln, "panic:") || strings.HasPrefix(ln, "runtime: goroutine stack exceeds") || strings.Contains(ln, "runtime: out of memory") {
+			fatal = strings.TrimSpace(ln)
+			break
+		}
+	}
+	if code >= 0 && code != 2 || (code == 2 && fatal == "") {
+		return code // an ordinary verdict (or a BROKEN-CHECK / build problem reported by the child itself)
+	}
+	if fatal == "" {
+		fatal = "killed: " + ee.String()
+	}
+	fp := prop + "/monitor-process-died/" + mon.Shorten(fatal)
+	h := fnv.New32a()
+	h.Write([]byte(fp))
+	dir := filepath.Join(mon.Root(), "replays")
+	os.MkdirAll(dir, 0o755)
+	rp := filepath.Join(dir, fmt.Sprintf("%s-%08x.json", prop, h.Sum32()))
+	head := out
+	if len(head) > 6000 {
+		head = head[:6000]
+	}
+	b, _ := json.MarshalIndent(map[string]any{"fingerprint": fp, "property": prop, "seed": os.Getenv("VERIF_SEED"), "tier": os.Getenv("VERIF_TIER"),
+		"what": "the process running the library under the monitor died: " + fatal, "detail": map[string]any{"exit": ee.String(), "stderr_head": head, "rerun": "./check " + prop + " " + os.Getenv("VERIF_TIER") + " with the same VERIF_SEED"}}, "", " ")
+	os.WriteFile(rp, b, 0o644)
+	fmt.Printf("VIOLATION property=%s replay=%s\n  fingerprint=%s what=%s\n", prop, rp, fp, fatal)
+	fmt.Printf("%s %s seed=%s: the monitor process died (%s); no evidence file was written; verdict=violated\n", prop, os.Getenv("VERIF_TIER"), os.Getenv("VERIF_SEED"), ee.String())
+	return 1
+}
+
+type limited struct {
+	b   *bytes.Buffer
+	max int
+}
+
+func (l *limited) Write(p []byte) (int, error) {
+	if l.b.Len() < l.max {
+		l.b.Write(p)
+	}
+	return len(p), nil
 }
